@@ -22,6 +22,9 @@ def conditions(tier, seed):
         Cond('kind', 'c10_names.py', {}, func='check_kind', timeout=t,
              bound='class-name spelling in new/find_metaclass/select_*/find_class/define_class/attribute_type: 4x4 spellings',
              case_split=['a', 'b', 'which']),
+        Cond('loaded', 'c10_names.py', {}, func='check_loaded', timeout=t,
+             bound='loaded model, identifier that is also referential: re-relate / rewrite the referred id / unrelate, then read, query and serialize under all spellings',
+             case_split=['op', 's1', 's2', 'v'], realised=['model text']),
         Cond('serialize', 'c10_names.py', {}, func='check_serialize', timeout=t,
              bound='two writes under any spelling, serialize_instance text', case_split=['c1', 'c2', 'v1', 'v2']),
     ]
